@@ -12,6 +12,7 @@ import Driver.LexDrv
 import Driver.DeclaratorsDrv
 import Driver.ScopesDrv
 import Driver.UnparseDrv
+import Driver.TypedefsDrv
 /-! `psymodel <component>`: reads one case per line on stdin, answers one line per case. -/
 
 partial def loop (h : IO.FS.Stream) (out : IO.FS.Stream) (f : String → String) : IO Unit := do
@@ -37,5 +38,6 @@ def main (args : List String) : IO UInt32 := do
   | ["declarators"] => loop stdin stdout Driver.DeclaratorsDrv.handle; return 0
   | ["scopes"] => loop stdin stdout Driver.ScopesDrv.handle; return 0
   | ["unparse"] => loop stdin stdout Driver.UnparseDrv.handle; return 0
+  | ["typedefs"] => loop stdin stdout Driver.TypedefsDrv.handle; return 0
   | ["climb"] => loop stdin stdout Driver.ClimbDrv.handle; return 0
   | _ => IO.eprintln "usage: psymodel <component>"; return 2
